@@ -54,7 +54,7 @@ def GoodF (F : ValFam) (s₀ : List Char) (q : Nat) (t : List Char) (r : Res) : 
   match pField F.const (toks t) with
   | some ((n, v), ts') =>
     ∃ s' pr, r = .ok (q + (t.length - s'.length)) s' [pr] ∧ toks s' = ts' ∧ s'.length < t.length ∧
-      (∃ mid, t = mid ++ s') ∧ pr.start = q ∧ (noFloatV v = true → BuildsF s₀ pr n v)
+      (∃ mid, t = mid ++ s') ∧ pr.start = q ∧ (finV v = true → BuildsF s₀ pr n v)
   | none => r = .fail
 
 def GoodFC (F : ValFam) (q : Nat) (t : List Char) (r : Res) : Prop := ∀ s₀, At s₀ q t → GoodF F s₀ q t r
@@ -103,24 +103,25 @@ theorem GoodF.fail {F s₀ q t r} (h : GoodF F s₀ q t r) (hp : pField F.const 
 
 theorem GoodF.ok {F s₀ q t r n v ts'} (h : GoodF F s₀ q t r) (hp : pField F.const (toks t) = some ((n, v), ts')) :
     ∃ s' pr, r = .ok (q + (t.length - s'.length)) s' [pr] ∧ toks s' = ts' ∧ s'.length < t.length ∧
-      (∃ mid, t = mid ++ s') ∧ pr.start = q ∧ (noFloatV v = true → BuildsF s₀ pr n v) := by
+      (∃ mid, t = mid ++ s') ∧ pr.start = q ∧ (finV v = true → BuildsF s₀ pr n v) := by
   unfold GoodF at h; rw [hp] at h; exact h
 
 theorem GoodF.mk_fail {F s₀ q t} (hp : pField F.const (toks t) = none) : GoodF F s₀ q t .fail := by
   unfold GoodF; rw [hp]
 
 /-- one field of an object literal, given the value rule on every shorter text -/
-theorem field_elem (F : ValFam) (hF : IsFam F) (q : Nat) (t : List Char) (ht : TokStart t)
+theorem field_elem_gen (F : ValFam) (fn : String) (rr : Rule) (hFr : RuleOk fn rr)
+    (hre : rr.expr = .seq (.ident "name") (.seq (.str [':']) (.ident F.vName)))
+    (q : Nat) (t : List Char) (ht : TokStart t)
     (IH : ∀ t' q', t'.length < t.length → TokStart t' →
       ∃ r, EvR G0 c0 (.ident F.vName) q' t' (24 * t'.length + 60) r ∧ GoodC F q' t' r) :
-    ∃ r, EvR G0 c0 (.ident F.fName) q t (24 * t.length + 21) r ∧ GoodFC F q t r := by
-  obtain ⟨-, -, -, hFr⟩ := fam_rules F hF
+    ∃ r, EvR G0 c0 (.ident fn) q t (24 * t.length + 21) r ∧ GoodFC F q t r := by
   have hname := ev_nameR tokRules0 c0 q t
   rw [nameRes_tok] at hname
   cases hn : nameTok t with
   | none =>
     rw [hn] at hname
-    have hb : EvR G0 c0 (fRule F).expr q t (t.length + 9) .fail := EvR.seq_fail hname (Nat.lt_succ_self _)
+    have hb : EvR G0 c0 rr.expr q t (t.length + 9) .fail := by rw [hre]; exact EvR.seq_fail hname (Nat.lt_succ_self _)
     refine ⟨.fail, (ev_ruleOk hFr hb (Nat.lt_succ_self _)).mono (by omega), fun s₀ _ => GoodF.mk_fail ?_⟩
     exact pField_none1 _ _ (toks_not_name ht hn)
   | some x =>
@@ -141,7 +142,8 @@ theorem field_elem (F : ValFam) (hF : IsFam F) (q : Nat) (t : List Char) (ht : T
       have hin : EvR G0 c0 (.seq (.str [':']) (.ident F.vName)) (skipPos (q + n.length) r1) (skipI r1) 2 .fail :=
         EvR.seq_fail hcolon (Nat.lt_succ_self _)
       have hb := ev_seq0 hname' hin (K := 24 * t.length + 20) (by omega) (by omega) (by omega)
-      refine ⟨.fail, (ev_ruleOk hFr (r := fRule F) hb (Nat.lt_succ_self _)).cast rfl, fun s₀ _ => GoodF.mk_fail ?_⟩
+      rw [← hre] at hb
+      refine ⟨.fail, (ev_ruleOk hFr (r := rr) hb (Nat.lt_succ_self _)).cast rfl, fun s₀ _ => GoodF.mk_fail ?_⟩
       rw [htoks, ← toks_skipI r1]
       exact pField_none2 _ _ _ (toks_not_punct (by decide) (tokStart_skipI r1) hc)
     | some r2 =>
@@ -153,7 +155,8 @@ theorem field_elem (F : ValFam) (hF : IsFam F) (q : Nat) (t : List Char) (ht : T
       obtain ⟨rv, hv1, hv2⟩ := IH (skipI r2) (skipPos (skipPos (q + n.length) r1 + 1) r2) (by omega) (tokStart_skipI r2)
       have hin := ev_seq0 hcolon' hv1 (K := 24 * r1.length + 40) (by omega) (by omega) (by omega)
       have hb := ev_seq0 hname' hin (K := 24 * t.length + 20) (by omega) (by omega) (by omega)
-      have hev := ev_ruleOk hFr (r := fRule F) hb (Nat.lt_succ_self _)
+      rw [← hre] at hb
+      have hev := ev_ruleOk hFr (r := rr) hb (Nat.lt_succ_self _)
       have htoks2 : toks t = .name n :: .punct ':' :: toks (skipI r2) := by
         rw [htoks, ← toks_skipI r1, toks_punct_of (by decide) (tokStart_skipI r1) hc, toks_skipI r2]
       refine ⟨_, hev, fun s₀ hat => ?_⟩
@@ -175,12 +178,12 @@ theorem field_elem (F : ValFam) (hF : IsFam F) (q : Nat) (t : List Char) (ht : T
         obtain ⟨s', pr, e, hts', hlt', ⟨mid, hmid⟩, hst, hbv⟩ := hg.ok hp
         subst e
         simp only [Option.map_some]
-        have hcons := (show EvR G0 c0 (.ident F.fName) q t _ _ from hev).consumes
+        have hcons := (show EvR G0 c0 (.ident fn) q t _ _ from hev).consumes
         simp only [prepend_ok, wrapN_ok, List.nil_append] at hcons hev
         obtain ⟨mid2, hmid2, hpos⟩ := hcons
         have hlen := congrArg List.length hmid2
         simp only [List.length_append] at hlen
-        refine ⟨s', Pair.mk F.fName q
+        refine ⟨s', Pair.mk fn q
           (skipPos (skipPos (q + n.length) r1 + 1) r2 + ((skipI r2).length - s'.length))
           ([Pair.mk "name" q (q + n.length) []] ++ [pr]), ?_, hts', by omega, ⟨mid2, hmid2⟩, rfl, ?_⟩
         · simp only [prepend_ok, wrapN_ok, List.nil_append]
@@ -196,6 +199,13 @@ theorem field_elem (F : ValFam) (hF : IsFam F) (q : Nat) (t : List Char) (ht : T
           have ha := asStr_at hat n.length "name" []
           rw [htxt] at ha
           simp only [List.take_left'] at ha
-          simp only [fieldBuild, Pair.inner, List.cons_append, List.nil_append, hb1, Except.map, envOf] at ha ⊢
-          rw [ha]
+          simp only [envOf] at hb1
+          simp only [fieldBuild, Pair.inner, List.cons_append, List.nil_append, Except.map, envOf] at ha ⊢
+          rw [ha, hb1]
+
+theorem field_elem (F : ValFam) (hF : IsFam F) (q : Nat) (t : List Char) (ht : TokStart t)
+    (IH : ∀ t' q', t'.length < t.length → TokStart t' →
+      ∃ r, EvR G0 c0 (.ident F.vName) q' t' (24 * t'.length + 60) r ∧ GoodC F q' t' r) :
+    ∃ r, EvR G0 c0 (.ident F.fName) q t (24 * t.length + 21) r ∧ GoodFC F q t r :=
+  field_elem_gen F F.fName (fRule F) (fam_rules F hF).2.2.2 rfl q t ht IH
 end AGV.Lemmas.PegX
